@@ -1,5 +1,5 @@
 ENTRY = dict(
-    runner="C21", pkg="./cmd/c21", corr=["Corr.C21Corr"], n=dict(quick=130, thorough=1500),
+    runner="C21", pkg="./cmd/c21", corr=["Corr.C21Corr"], n=dict(quick=66, thorough=1200),
     rule="certificate messages of 60 B .. 250 KiB (1-3 entries) compressed with compress/zlib (levels 1/6/9/0/HuffmanOnly, Flush at "
          "random cut points), andybalholm/brotli (quality 0/5/9/11, lgwin 10..22, Flush at cut points) and klauspost zstd (3 levels, one "
          "frame per piece = generated chunkings) and handed to decompressCert through hooks/verif_c21.go; variations: valid, declared "
